@@ -61,6 +61,23 @@ const POOL: [&str; 31] = [
     "module A\nenum RE { V(x: R2), W }\n",
 ];
 
+/// A second, small pool for the permutation family: every kind of MEMBER (parameter, return member, enumerator field,
+/// field, operation) whose scoped name is also that of a definition in a nested module of another file - and, for each,
+/// a third file that USES the colliding name (without a user both orders are accepted and nothing can differ).
+const POOL_MEMBERS: [&str; 11] = [
+    "module A\ninterface B5 { op(P: int32) -> (R: int32, Q: bool) }\nenum B6 { W(F: int32) }\n",
+    "module A::B5::op\nstruct P {}\nstruct R {}\n",
+    "module Q\nstruct UP { p: A::B5::op::P, r: A::B5::op::R }\n",
+    "module A::B6::W\ncustom F\n",
+    "module Q\nstruct UF { f: A::B6::W::F }\n",
+    "module A\nstruct B2 { X: int32 }\n",
+    "module A::B2\ncustom X\n",
+    "module Q\nstruct UX { x: A::B2::X }\n",
+    "module A\ninterface B3 { Y() }\n",
+    "module A::B3\ntypealias Y = int32\n",
+    "module Q\nstruct UY { y: A::B3::Y }\n",
+];
+
 /// files whose presence together makes a definition collide with a nested module of another file
 fn has_module_definition_collision(subset: &[usize]) -> bool {
     subset.contains(&9) && (subset.contains(&2) || subset.contains(&3) || subset.contains(&14) || subset.contains(&15))
@@ -112,7 +129,11 @@ struct Outcome {
 }
 
 fn compile_order(order: &[usize]) -> Result<Outcome, (String, String)> {
-    let texts: Vec<&str> = order.iter().map(|i| POOL[*i]).collect();
+    compile_order_of(&POOL, order)
+}
+
+fn compile_order_of(pool: &[&str], order: &[usize]) -> Result<Outcome, (String, String)> {
+    let texts: Vec<&str> = order.iter().map(|i| pool[*i]).collect();
     // every compilation is given the symbol GIVEN on the command line (pool files #27 and #28 undefine / test it)
     let mut options = slicec::slice_options::SliceOptions::default();
     options.defined_symbols = vec!["GIVEN".to_string()];
@@ -137,6 +158,7 @@ fn compile_order(order: &[usize]) -> Result<Outcome, (String, String)> {
 
 pub struct Permutations {
     subsets: Vec<Vec<usize>>,
+    pool: &'static [&'static str],
 }
 impl Permutations {
     pub fn new(max: usize) -> Self {
@@ -144,11 +166,21 @@ impl Permutations {
         for k in 2..=max {
             s.extend(subsets(POOL.len(), k));
         }
-        Permutations { subsets: s }
+        Permutations { subsets: s, pool: &POOL }
+    }
+    pub fn member_collisions() -> Self {
+        let mut s = vec![];
+        for k in 2..=4 {
+            s.extend(subsets(POOL_MEMBERS.len(), k));
+        }
+        Permutations { subsets: s, pool: &POOL_MEMBERS }
     }
 }
 impl Family for Permutations {
     fn name(&self) -> String {
+        if self.pool.len() == POOL_MEMBERS.len() {
+            return format!("permutations-member-collisions/{} subsets (2..4 files) of an 11-file pool in which a parameter, a return member, an enumerator field, a field and an operation are named like definitions in nested modules of other files, each with a file that uses the colliding name x all permutations, each compiled twice", self.subsets.len());
+        }
         format!("permutations/{} subsets of the 31-file pool x all permutations, each compiled twice", self.subsets.len())
     }
     fn len(&self) -> u64 {
@@ -156,14 +188,18 @@ impl Family for Permutations {
     }
     fn describe(&self, idx: u64) -> Value {
         let s = &self.subsets[idx as usize];
-        json!({"files": s.iter().map(|i| POOL[*i]).collect::<Vec<_>>(), "pool_indices": s, "orders": permutations(s).len()})
+        json!({"files": s.iter().map(|i| self.pool[*i]).collect::<Vec<_>>(), "pool_indices": s, "orders": permutations(s).len()})
     }
     fn run(&self, idx: u64) -> CaseOut {
         let subset = &self.subsets[idx as usize];
-        let mut out = CaseOut::new(hash_str(&format!("c15perm{subset:?}")));
+        let mut out = CaseOut::new(hash_str(&format!("c15perm{}{subset:?}", self.pool.len())));
         out.steps = 0;
         out.validated = 1;
-        let feature = if subset.contains(&16) && subset.contains(&14) {
+        let second_pool = self.pool.len() == POOL_MEMBERS.len();
+        let pool = self.pool;
+        let feature = if second_pool {
+            "member-named-like-definition-in-nested-module-of-another-file"
+        } else if subset.contains(&16) && subset.contains(&14) {
             "member-named-like-definition-in-nested-module-of-another-file"
         } else if has_module_definition_collision(subset) {
             "definition-named-like-nested-module-of-another-file"
@@ -176,11 +212,11 @@ impl Family for Permutations {
         } else {
             "no-module-definition-collision"
         };
-        let show = |o: &[usize]| o.iter().map(|i| format!("--- file (pool #{i}) ---\n{}", POOL[*i])).collect::<Vec<_>>().join("");
+        let show = |o: &[usize]| o.iter().map(|i| format!("--- file (pool #{i}) ---\n{}", pool[*i])).collect::<Vec<_>>().join("");
         let mut first: Option<(Vec<usize>, Outcome)> = None;
         for order in permutations(subset) {
             out.steps += 2;
-            let (a, b) = match (compile_order(&order), compile_order(&order)) {
+            let (a, b) = match (compile_order_of(pool, &order), compile_order_of(pool, &order)) {
                 (Ok(a), Ok(b)) => (a, b),
                 (Err((loc, msg)), _) | (_, Err((loc, msg))) => {
                     out.violate(format!("c15/permutations/panic@{loc}"), format!("panic at {loc}: {msg}\n{}", show(&order)));
@@ -259,6 +295,10 @@ fn capture_args() -> Vec<(String, String)> {
 }
 
 fn run_binary(files: &[(usize, bool)], seed: Option<u32>) -> BinObs {
+    run_binary_with(files, seed, &[])
+}
+
+fn run_binary_with(files: &[(usize, bool)], seed: Option<u32>, extra: &[&str]) -> BinObs {
     let mut sc = Scenario::default();
     let mut argv = vec![];
     for (i, src) in files {
@@ -274,6 +314,7 @@ fn run_binary(files: &[(usize, bool)], seed: Option<u32>) -> BinObs {
     sc.gens.push(Gen { name: "capture".into(), install: Install::Script(Script(vec![Step::ReadAll, Step::Stdout(encode_reply(&[], &[])), Step::Exit(0)])) });
     argv.push("-G".into());
     argv.push(crate::proc::gen_spec("{relgen0}", &capture_args()));
+    argv.extend(extra.iter().map(|s| s.to_string()));
     sc.argv = argv;
     if let Some(s) = seed {
         sc.env.push(("LD_PRELOAD".into(), shim_path()));
@@ -354,6 +395,24 @@ impl Family for Assignments {
             if o.request != base.request || o.stdin != base.stdin {
                 out.violate("c15/binary/request-depends-on-hash-seed", format!("what the generator receives (the request and its five arguments) differs between hash seeds 0 and {seed}\n{}", desc()));
                 break;
+            }
+        }
+        // "the same inputs and OPTIONS": a second option vector (JSON diagnostics, a suppression, a symbol) for the
+        // first eleven programs
+        if p < 11 {
+            let extra = ["--diagnostic-format", "json", "-A", "Deprecated", "-D", "X", "-D", "GIVEN"];
+            let b2 = run_binary_with(&files, Some(0), &extra);
+            out.steps += 1;
+            for seed in 1..seeds.min(3) {
+                let o = run_binary_with(&files, Some(seed), &extra);
+                out.steps += 1;
+                if o.stderr != b2.stderr || o.stdout != b2.stdout || o.exit != b2.exit || o.stdin != b2.stdin {
+                    out.violate("c15/binary/result-depends-on-hash-seed-with-options", format!("with {extra:?}: seed 0: exit {:?} stderr {}\nseed {seed}: exit {:?} stderr {}\n{}", b2.exit, show_bytes(&b2.stderr), o.exit, show_bytes(&o.stderr), desc()));
+                    break;
+                }
+            }
+            if (b2.exit == Some(0)) != (base.exit == Some(0)) {
+                out.violate("c15/binary/acceptance-depends-on-unrelated-options", format!("with {extra:?} the exit status is {:?}, without {:?}\n{}", b2.exit, base.exit, desc()));
             }
         }
         // same seed twice: byte-identical
@@ -511,5 +570,5 @@ impl Family for Repetition {
 
 pub fn families(tier: &str) -> Vec<Box<dyn Family>> {
     let quick = tier == "quick";
-    vec![Box::new(Assignments::new(tier)), Box::new(Repetition { runs: if quick { 8 } else { 64 } }), Box::new(Permutations::new(if quick { 4 } else { 5 }))]
+    vec![Box::new(Assignments::new(tier)), Box::new(Repetition { runs: if quick { 8 } else { 64 } }), Box::new(Permutations::member_collisions()), Box::new(Permutations::new(if quick { 4 } else { 5 }))]
 }
